@@ -17,6 +17,11 @@ theorem write_mono (p : Bytes) (s : St) : CMono s.c (s.write p).st.c := by
   cases hw : s.w.write p with
   | mk w b => cases b <;> exact CMono.refl _
 
+theorem clrErrIf_mono (b : Bool) (s : St) : CMono s.c (clrErrIf b s).c := by
+  unfold clrErrIf; split
+  · exact CMono.of_eq rfl rfl rfl
+  · exact CMono.refl _
+
 theorem sepWrite_mono (n : Nat) (sep : Bytes) (s : St) : CMono s.c (sepWrite n sep s).st.c := by
   unfold sepWrite; split
   · exact write_mono _ s
@@ -100,20 +105,22 @@ theorem cloopLoop_mono (run : St → Res) (hrun : Mono run) (ls : CLoopSpec) :
         | some e => exact h1.trans (CMono.of_eq rfl rfl rfl)
         | none =>
           simp only
-          have h2 : CMono s.c (run { rs.st with c := { rs.st.c with chQB := true } }).st.c :=
-            (h1.trans (CMono.of_eq rfl rfl rfl)).trans (hrun { rs.st with c := { rs.st.c with chQB := true } })
-          generalize run { rs.st with c := { rs.st.c with chQB := true } } = rb0 at h2
-          have h3 : CMono s.c ({ rb0 with st := { rb0.st with c := { rb0.st.c with chQB := rs.st.c.chQB } } } : Res).st.c :=
+          have h1' : CMono s.c (clrErrIf (decide (n > 0) && !ls.sep.isEmpty) rs.st).c := h1.trans (clrErrIf_mono _ _)
+          generalize clrErrIf (decide (n > 0) && !ls.sep.isEmpty) rs.st = rs1 at h1'
+          have h2 : CMono s.c (run { rs1 with c := { rs1.c with chQB := true } }).st.c :=
+            (h1'.trans (CMono.of_eq rfl rfl rfl)).trans (hrun { rs1 with c := { rs1.c with chQB := true } })
+          generalize run { rs1 with c := { rs1.c with chQB := true } } = rb0 at h2
+          have h3 : CMono s.c ({ rb0 with st := { rb0.st with c := { rb0.st.c with chQB := rs1.c.chQB } } } : Res).st.c :=
             h2.trans (CMono.of_eq rfl rfl rfl)
-          have h4 := h3.trans (iterAfterBody_mono { rb0 with st := { rb0.st with c := { rb0.st.c with chQB := rs.st.c.chQB } } })
+          have h4 := h3.trans (iterAfterBody_mono { rb0 with st := { rb0.st with c := { rb0.st.c with chQB := rs1.c.chQB } } })
           split
-          · cases hio : iterAfterBody { rb0 with st := { rb0.st with c := { rb0.st.c with chQB := rs.st.c.chQB } } } with
+          · cases hio : iterAfterBody { rb0 with st := { rb0.st with c := { rb0.st.c with chQB := rs1.c.chQB } } } with
             | abort st => rw [hio] at h4; exact h4
             | stop st => rw [hio] at h4; exact h4.trans (CMono.of_eq rfl rfl rfl)
             | next st =>
               rw [hio] at h4
               exact (h4.trans (CMono.of_eq rfl rfl rfl)).trans (ih _ _ _ { st with c := st.c.setStatic ls.cnt (Val.int (stepVal ls.cntOp v)) })
-          · cases hio : iterAfterBody { rb0 with st := { rb0.st with c := { rb0.st.c with chQB := rs.st.c.chQB } } } with
+          · cases hio : iterAfterBody { rb0 with st := { rb0.st with c := { rb0.st.c with chQB := rs1.c.chQB } } } with
             | abort st => rw [hio] at h4; exact h4
             | stop st => exact h3.trans (CMono.of_eq rfl rfl rfl)
             | next st => exact h3.trans (CMono.of_eq rfl rfl rfl)
@@ -219,7 +226,20 @@ theorem interp_mono (reg : Registry) : ∀ f : Nat,
         | text t => exact h.trans (tplWrites_mono pre t suf noesc { s with c := c2 })
       | ctx cs => intro s; rw [writeNode]; exact ctxNode_mono s.c cs
       | counter cs => intro s; rw [writeNode]; exact counterNode_mono s.c cs
-      | condOK => intro s; rw [writeNode]; exact CMono.refl _
+      | condOK k child =>
+        intro s; rw [writeNode]
+        split
+        · exact CMono.refl _
+        · have h := evalCondOK_mono s.c k
+          generalize evalCondOK s.c k = ec at h
+          obtain ⟨c1, o⟩ := ec
+          cases o with
+          | stop e => exact h
+          | branch r pending =>
+            simp only
+            cases (if r then child[0]? else child[1]?) with
+            | none => exact h
+            | some n => exact h.trans (ihN n { s with c := c1 })
       | cond cd child =>
         intro s; rw [writeNode]
         have h := evalCond_mono s.c cd
